@@ -73,11 +73,13 @@ def run(ctx):
     ctx.note("vacuity_witnesses_reached", len(WITNESSES))
     # ---- spec -> code: every edge of the state graph
     small = 2 if ctx.quick else 3
-    # (the same run checks deadlock freedom and termination: <>Terminal under weak fairness of Next)
-    gcfg = tlc.write_cfg(os.path.join(ctx.scratch, "graph.cfg"), spec="FairSpec", constants=consts(small), invariants=INV,
-                         properties=["Terminates"])
+    # the same run checks deadlock freedom (TLC's own deadlock check: every non-Terminal state has a successor) and, in
+    # the thorough tier, termination (<>Terminal under weak fairness of Next); the graph is acyclic apart from the
+    # Terminal self-loops, so deadlock freedom already implies termination - the temporal check confirms it
+    live = {} if ctx.quick else {"spec": "FairSpec", "properties": ["Terminates"]}
+    gcfg = tlc.write_cfg(os.path.join(ctx.scratch, "graph.cfg"), constants=consts(small), invariants=INV, **live)
     gres, nodes, edges, init = tlc.state_graph("Concurrent", gcfg, ctx.scratch, timeout=1800)
-    ctx.add_tlc(gres, "graph + termination MaxN=%d" % small)
+    ctx.add_tlc(gres, "graph%s MaxN=%d" % ("" if ctx.quick else " + termination", small))
     if gres.violation:
         spec_violation(ctx, gres, "MaxN=%d" % small)
         return
@@ -92,7 +94,7 @@ def run(ctx):
     if ctx.quick:
         # plus random behaviours of the larger instance
         scfg = tlc.write_cfg(os.path.join(ctx.scratch, "sim.cfg"), constants=consts(3), invariants=INV)
-        sres, sims = tlc.simulate("Concurrent", scfg, ctx.scratch, num=250, depth=60, seed=ctx.seed, timeout=300)
+        sres, sims = tlc.simulate("Concurrent", scfg, ctx.scratch, num=100, depth=30, seed=ctx.seed, timeout=300)
         ctx.note("simulated_behaviours_MaxN3", len(sims))
         behaviours += sims
 
